@@ -621,8 +621,14 @@ def _r5(ctx):
         preds = dispatch_by_model(ctx, prog, "R-C04-5", "Memory 3 / maximum bookkeeping")
         m3 = preds.get("NEWMAX")
         odd = [k for k in preds if k.startswith("NEWMAX?")]
+        flags = [norm_text(s_.value) for s_ in walk_function(ps.node) if isinstance(s_, ast.Assign) and len(s_.targets) == 1 and
+                 isinstance(s_.targets[0], ast.Name)] + [norm_text(n_) for n_ in ast.walk(ps.node) if isinstance(n_, ast.Compare)]
         if m3 is not None and guard_text == m3 and not odd:
             ctx.holds(ps, ps.node, "Memory-3 test uses the same expression as the maximum update")
+        elif guard_text in flags and (m3 is None or "load_max_seen" not in m3):
+            # the comparison is computed once into a flag and the dispatch tests the flag: the model classified another test as the
+            # Memory-3 decision; the expression itself is the guard's, so there is nothing to report and nothing decided
+            raise AnalysisError("_hcm_process_sample: Memory-3 decision taken through a precomputed flag, dispatch model not conclusive")
         else:
             ctx.violated(ps, ps.node, "Memory-3 test %s differs from the maximum update guard %s: a load equal to the old maximum "
                          "could be classified inconsistently" % (m3 or [preds[k] for k in odd], guard_text), text="memory-3 guard")
@@ -633,6 +639,11 @@ def _r5(ctx):
         if len(mem3) != 1:
             raise AnalysisError("_hcm_process_sample: Memory-3 branch not found")
         same = guard_text is not None and norm_text(mem3[0].test) == guard_text
+        if not same and guard_text is not None and "load_max_seen" not in norm_text(mem3[0].test) and \
+                any(isinstance(n_, ast.Compare) and norm_text(n_) == guard_text for n_ in ast.walk(ps.node)):
+            # the Memory-3 handler sits under another test (iz == ir) and the new-maximum comparison - the guard's own expression -
+            # is decided earlier (early return / flag): no culprit, the shape is not modelled
+            raise AnalysisError("_hcm_process_sample: Memory-3 handler not directly under the new-maximum test; dispatch shape not modelled")
         if same:
             ctx.holds(ps, mem3[0], "Memory-3 test uses the same expression as the maximum update")
         else:
